@@ -1918,6 +1918,8 @@ class GattServer(GattLayer):
 
                         # Set characteristic notification callback
                         charac.set_notification_callback(self.notify)
+                        if charac not in self.__subscribed_characs:
+                            self.__subscribed_characs.append(charac)
 
                         self.server_model.on_characteristic_subscribed(
                             service,
@@ -1930,6 +1932,8 @@ class GattServer(GattLayer):
 
                         # Set characteristic indication callback
                         charac.set_indication_callback(self.indicate)
+                        if charac not in self.__subscribed_characs:
+                            self.__subscribed_characs.append(charac)
 
                         self.server_model.on_characteristic_subscribed(
                             service,
